@@ -9,7 +9,8 @@ package main
 //        walk) and, from a second run of http.ReadResponse on the same chunks, its answer
 //        (resBuf.Len() - br.Buffered(), or -1) and the bytes captured. These enter the model as the
 //        parse_head answer and the read sizes.
-//   DFU  the same for DebugUpgrader.Upgrade.
+//   DFU  the same for DebugUpgrader.Upgrade (plus the order in which the callbacks ran).
+//   DBH  a wrapper that blocks where the plain handshake returns (F25, F26), over net.Pipe with a watchdog.
 // The generators of DBD / DBU (c11.go, zx_mut.go, zy_cov_b.go) feed these kinds through dbdExtra /
 // dbuExtra; more cases (chunks larger than net/http's 4096-byte buffer, heads ending exactly at a read,
 // bodies, pipelined bytes) are generated below.
@@ -26,6 +27,7 @@ import (
 	"runtime"
 	"strconv"
 	"strings"
+	"sync"
 	"time"
 
 	"github.com/gobwas/ws"
@@ -223,6 +225,7 @@ type dfuObs struct {
 	nReq, nResp     int
 	gotReq, gotResp []byte
 	httpReads       []int
+	order           string // callbacks in the order they ran: q = OnRequest, r = OnResponse
 }
 
 func dfuRun(chunks [][]byte, cfg ucfg, debug, setReq, setResp bool) (o dfuObs) {
@@ -238,10 +241,10 @@ func dfuRun(chunks [][]byte, cfg ucfg, debug, setReq, setResp bool) (o dfuObs) {
 		if debug {
 			d := wsutil.DebugUpgrader{Upgrader: cfg.upgrader(0, 0)}
 			if setReq {
-				d.OnRequest = func(p []byte) { o.nReq++; o.gotReq = append([]byte(nil), p...) }
+				d.OnRequest = func(p []byte) { o.nReq++; o.order += "q"; o.gotReq = append([]byte(nil), p...) }
 			}
 			if setResp {
-				d.OnResponse = func(p []byte) { o.nResp++; o.gotResp = append([]byte(nil), p...) }
+				d.OnResponse = func(p []byte) { o.nResp++; o.order += "r"; o.gotResp = append([]byte(nil), p...) }
 			}
 			o.hs, err = d.Upgrade(lc)
 		} else {
@@ -264,12 +267,116 @@ func dfu(c *ctx, req []byte, sizes []int, cfg ucfg, setReq, setResp bool) {
 		ans, captured, refReads = refParse(chunks, false)
 	}
 	same := encInts(refReads) == encInts(d.httpReads)
-	c.emit("DFU %s %s %s %d %d -> %s %s %s %s %s %s %s %s %d %s %d %s %s %s %d %s %d",
+	if d.order == "" {
+		d.order = "-"
+	}
+	c.emit("DFU %s %s %s %d %d -> %s %s %s %s %s %s %s %s %d %s %d %s %s %s %d %s %d %s",
 		hx(req), encInts(sizes), cfg.tokens(), b2i(setReq), b2i(setResp),
 		p.cls, hsTok(p.cls, p.hs), hx(p.out), hx(p.rest),
 		d.cls, hsTok(d.cls, d.hs), hx(d.out), hx(d.rest),
 		d.nReq, hx(d.gotReq), d.nResp, hx(d.gotResp),
-		encChunks(chunks), encInts(d.httpReads), ans, hx(captured), b2i(same))
+		encChunks(chunks), encInts(d.httpReads), ans, hx(captured), b2i(same), d.order)
+}
+
+// DBH: the two scenarios in which a debugging wrapper waits for bytes the plain handshake does not need
+// (F25: DebugUpgrader and a request announcing a body that is not sent; F26: DebugDialer and a refusal
+// without Content-Length on a connection the server keeps open), over net.Pipe, next to the plain
+// handshake, each under a 1.5 s watchdog. "hang" = still blocked when the watchdog fires.
+const dbhHdrs = "Host: example.com\r\nUpgrade: websocket\r\nConnection: Upgrade\r\nSec-WebSocket-Version: 13\r\nSec-WebSocket-Key: dGhlIHNhbXBsZSBub25jZQ==\r\n"
+
+func dbhServer(debug bool, req string) string {
+	cl, sv := net.Pipe()
+	defer cl.Close()
+	defer sv.Close()
+	done := make(chan string, 1)
+	go func() {
+		var err error
+		if debug {
+			d := wsutil.DebugUpgrader{OnRequest: func([]byte) {}}
+			_, err = d.Upgrade(sv)
+		} else {
+			_, err = ws.Upgrade(sv)
+		}
+		done <- upgradeErrClass(err)
+	}()
+	go func() {
+		cl.Write([]byte(req))
+		buf := make([]byte, 4096)
+		cl.Read(buf) // the client now waits for the 101
+	}()
+	select {
+	case s := <-done:
+		return s
+	case <-time.After(1500 * time.Millisecond):
+		return "hang"
+	}
+}
+
+func dbhClient(debug bool, resp string) string {
+	cl, sv := net.Pipe()
+	defer cl.Close()
+	defer sv.Close()
+	go func() {
+		buf := make([]byte, 4096)
+		sv.Read(buf)
+		sv.Write([]byte(resp)) // answers and keeps the connection open
+	}()
+	done := make(chan string, 1)
+	go func() {
+		d := ws.Dialer{NetDial: func(ctx context.Context, n, a string) (net.Conn, error) { return cl, nil }}
+		var err error
+		if debug {
+			dd := wsutil.DebugDialer{Dialer: d, OnResponse: func([]byte) {}}
+			_, _, _, err = dd.Dial(context.Background(), "ws://example.com/ws")
+		} else {
+			_, _, _, err = d.Dial(context.Background(), "ws://example.com/ws")
+		}
+		done <- dialErrClass(err)
+	}()
+	select {
+	case s := <-done:
+		return s
+	case <-time.After(1500 * time.Millisecond):
+		return "hang"
+	}
+}
+
+var dbhScenarios = map[string]func(debug bool) string{
+	"upgrader-content-length-body-not-sent": func(debug bool) string {
+		return dbhServer(debug, "GET /ws HTTP/1.1\r\n"+dbhHdrs+"Content-Length: 5\r\n\r\n")
+	},
+	"dialer-refusal-without-content-length": func(debug bool) string {
+		return dbhClient(debug, "HTTP/1.1 400 Bad Request\r\nX: y\r\n\r\n")
+	},
+	// controls: the same exchanges without the open-ended body
+	"upgrader-plain-request": func(debug bool) string {
+		return dbhServer(debug, "GET /ws HTTP/1.1\r\n"+dbhHdrs+"\r\n")
+	},
+	"dialer-refusal-with-content-length": func(debug bool) string {
+		return dbhClient(debug, "HTTP/1.1 400 Bad Request\r\nContent-Length: 2\r\n\r\nno")
+	},
+}
+
+// dbh runs the given scenarios concurrently (plain and wrapped side by side) and emits one line each
+func dbh(c *ctx, names []string) {
+	type res struct{ plain, debug string }
+	out := make([]res, len(names))
+	var wg sync.WaitGroup
+	for i, n := range names {
+		f := dbhScenarios[n]
+		if f == nil {
+			continue
+		}
+		wg.Add(2)
+		go func(i int) { defer wg.Done(); out[i].plain = f(false) }(i)
+		go func(i int) { defer wg.Done(); out[i].debug = f(true) }(i)
+	}
+	wg.Wait()
+	for i, n := range names {
+		if dbhScenarios[n] != nil {
+			c.emit("DBH %s -> plain=%s debug=%s", n, out[i].plain, out[i].debug)
+		}
+	}
 }
 
 func init() {
@@ -282,6 +389,7 @@ func init() {
 	replayers["DFU"] = func(c *ctx, in []string) {
 		dfu(c, unhx(in[0]), decInts(in[1]), decUcfg(in[2:10]), in[11] == "1", in[12] == "1")
 	}
+	replayers["DBH"] = func(c *ctx, in []string) { dbh(c, []string{in[0]}) }
 	old := props["C11"]
 	props["C11"] = func(c *ctx) {
 		if old != nil {
@@ -310,6 +418,8 @@ func padHeaders(n int, eol string) string {
 }
 
 func dbgFullCases(c *ctx) {
+	dbh(c, []string{"upgrader-content-length-body-not-sent", "dialer-refusal-without-content-length",
+		"upgrader-plain-request", "dialer-refusal-with-content-length"})
 	head := func(eol string, extra ...string) string {
 		s := "HTTP/1.1 101 Switching Protocols" + eol + "Upgrade: websocket" + eol + "Connection: Upgrade" + eol +
 			"Sec-WebSocket-Accept: @@ACCEPT@@" + eol
